@@ -62,8 +62,6 @@ def violation(prop, signature, message, case=None, kind=None, clause=None):
 class Outcome:
     """Result of running one case."""
 
-    __slots__ = ("violations", "labels", "nontrivial", "excluded")
-
     def __init__(self, violations=None, labels=None, nontrivial=False, excluded=None):
         self.violations = violations or []
         self.labels = labels or []
